@@ -78,6 +78,12 @@ class SliceV(Sym):
 
 
 @dataclass(frozen=True, eq=False)
+class SpreadV(Sym):
+    """a symbolic sequence whose ITEMS were added to an accumulator (list.extend / += of a term standing for a list)"""
+    of: Any = None
+
+
+@dataclass(frozen=True, eq=False)
 class CallV(Sym):
     """result of a call that is not interpreted: callee name, receiver, argument terms"""
     fn: str = ""
@@ -155,6 +161,7 @@ class FlowDT(DT):
         self.loops = 0
         self.gen_loops: dict[str, list] = {}     # generic loop -> linear forms of the number of iterations
         self.range_of: dict[str, tuple] = {}     # generic loop over a range -> (start, stop, step)
+        self.loop_elems: dict[str, Any] = {}     # generic loop -> the element term its iteration sees
         self.cmpinfo: dict[str, tuple] = {}      # atom key -> (op type, left term, right term)
         self.raw: dict[int, Any] = {}            # effect number -> unrendered payload (terms)
         self.domain_reads: dict[str, Any] = {}   # path -> term, for terms enumerated over the domain of their type
@@ -175,6 +182,7 @@ class FlowDT(DT):
         self.yields = []
         self.gen_loops = {}
         self.range_of = {}
+        self.loop_elems = {}
         self.raw = {}
         if self.root_cls is None and fi.cls:
             self.root_cls = fi.cls
@@ -184,6 +192,7 @@ class FlowDT(DT):
             self.run_state.raised = r.what
         self.run_state.stores = dict(self.stores)         # final state of the attribute stores of this run
         self.run_state.raw = self.raw
+        self.run_state.loop_elems = dict(self.loop_elems)
         return self.run_state
 
     def effect(self, kind: str, *payload, raw=None) -> None:
@@ -328,7 +337,19 @@ class FlowDT(DT):
                 rp = it.recv.path if isinstance(it.recv, Sym) else it.recv
                 out += [{f"{rp}.height": 1}, {f"len({rp})": 1}]
             return out
+        if self._generic_seq(it):
+            n = self._gen_len(it)
+            return [{n.path: 1}] if n is not None else []
         return []
+
+    @staticmethod
+    def _gen_len(lst):
+        """the (symbolic) length of an accumulator that holds nothing but what ONE generic iteration added, one element per iteration"""
+        ms = [x for x in lst if isinstance(x, Marker)]
+        inner = [x for x in lst if not isinstance(x, Marker)]
+        if len(ms) == 2 and isinstance(lst[0], Marker) and isinstance(lst[-1], Marker) and len(inner) <= 1 and not any(isinstance(x, SpreadV) for x in inner):
+            return Sym(f"len(gen{ms[0].loop})")
+        return None
 
     def _elem(self, x, idx: Sym):
         """the element a generic iteration at position idx sees"""
@@ -350,12 +371,14 @@ class FlowDT(DT):
             return SubV(f"{x.path}[{idx.path}]", None, x, idx)
         if isinstance(x, (list, tuple)):
             inner = [e for e in x if not isinstance(e, Marker)]
-            if any(isinstance(e, Marker) for e in x) and len(inner) == 1 and isinstance(inner[0], Sym):
-                # an accumulator filled by one generic iteration of an earlier loop: a sequence of unknown length whose
-                # members are the items that iteration added
-                src = Sym(f"items({inner[0].path})")
-                return SubV(f"{src.path}[{idx.path}]", None, src, idx)
-            raise Unsupported("zip of a concrete and a symbolic sequence")
+            if any(isinstance(e, Marker) for e in x) and len(inner) == 1 and isinstance(x[0], Marker) and isinstance(x[-1], Marker):
+                # an accumulator filled by one generic iteration of an earlier loop: a sequence of unknown length whose members are what
+                # that iteration added (the element itself, or the items of a sequence that was spliced in)
+                if isinstance(inner[0], SpreadV):
+                    src = Sym(f"items({inner[0].path})")
+                    return SubV(f"{src.path}[{idx.path}]", None, src, idx)
+                return inner[0]
+            raise Unsupported("iteration over an accumulator that mixes literal elements and elements added by a generic iteration")
         return Sym(f"{self.show(x)}[{idx.path}]")
 
     def assign(self, t, v, env):
@@ -406,7 +429,8 @@ class FlowDT(DT):
             for lst in lists:
                 lst.append(Marker("begin", idx.path))
             self.effect("loop-begin", idx.path)
-            self.assign(s.target, self._elem(it, idx), env)
+            self.loop_elems[idx.path] = self._elem(it, idx)
+            self.assign(s.target, self.loop_elems[idx.path], env)
             try:
                 self.block(s.body, env)
             except (_Continue, _Break):
@@ -645,7 +669,8 @@ class FlowDT(DT):
                 out.append(Marker("begin", idx.path))
                 self.effect("loop-begin", idx.path)
                 e2 = dict(e)
-                self.assign(g.target, self._elem(it, idx), e2)
+                self.loop_elems[idx.path] = self._elem(it, idx)
+                self.assign(g.target, self.loop_elems[idx.path], e2)
                 if all(self.truth(self.ev(c, e2)) for c in g.ifs):
                     rec(gi + 1, e2)
                 self.effect("loop-end", idx.path)
@@ -676,9 +701,9 @@ class FlowDT(DT):
             if a is not None and b is not None:
                 return mk_lin(lin_add(a, b, 1 if isinstance(op, ast.Add) else -1), _terms(l, r))
         if isinstance(op, ast.Add) and isinstance(l, list) and isinstance(r, (Sym, tuple)):
-            return l + (list(r) if isinstance(r, tuple) else [r])          # accumulator + content of an emitter
+            return l + (list(r) if isinstance(r, tuple) else [SpreadV(r.path, r.cls, r)])          # accumulator + content of an emitter
         if isinstance(op, ast.Add) and isinstance(r, list) and isinstance(l, Sym):
-            return [l] + r
+            return [SpreadV(l.path, l.cls, l)] + r
         if isinstance(op, ast.Add) and (isinstance(l, str) and isinstance(r, Sym) or isinstance(l, Sym) and isinstance(r, str)):
             return (l if isinstance(l, str) else "‹" + l.path + "›") + (r if isinstance(r, str) else "‹" + r.path + "›")
         return super().binop(op, l, r, node)
@@ -769,22 +794,24 @@ class FlowDT(DT):
                 v = self.concrete(self.ev(n.args[0], env))
                 if isinstance(v, Sym):
                     return Sym(f"len({v.path})")
+                if self._generic_seq(v) and self._gen_len(v) is not None:
+                    return self._gen_len(v)
                 if isinstance(v, SymIter) or self._generic_seq(v):
                     raise Unsupported("len of a sequence built by a generic iteration")
                 return len(v)
-            if isinstance(bound, Sym) and "." in bound.path and "(" not in bound.path.rsplit(".", 1)[1]:
-                basep, m = bound.path.rsplit(".", 1)        # a bound method held in a local
-                recv = Sym(basep, self.classes.get(basep))
+            if nm in ("str", "int", "float") and bound is None and len(n.args) == 1 and not n.keywords:
+                v = self.concrete(self.ev(n.args[0], env))
+                if isinstance(v, Sym):
+                    return CallV(f"{nm}({v.path})", None, nm, "", (v,), ())         # a conversion of a term: keeps its argument
+                return super().ev_Call(ast.Call(func=f, args=[_Lit(v)], keywords=[]), env)
+            if nm == "partial" and bound is None and n.args:
+                fv = self.ev(n.args[0], env)                      # functools.partial: the callable value with its leading arguments
+                if self._callable_value(fv):
+                    return ("partial", fv, [self.ev(a, env) for a in n.args[1:]], {k.arg: self.ev(k.value, env) for k in n.keywords})
+            if self._callable_value(bound):
                 args = [self.ev(a, env) for a in n.args]
                 kw = {k.arg: self.ev(k.value, env) for k in n.keywords}
-                return self.call_method_on(recv, m, args, kw, n, env)
-            if isinstance(bound, tuple) and bound and bound[0] == "method":
-                args = [self.ev(a, env) for a in n.args]
-                kw = {k.arg: self.ev(k.value, env) for k in n.keywords}
-                return self.call_named(bound[1], bound[2], None, args, kw, n, env)
-            if isinstance(bound, tuple) and bound and bound[0] == "closure":
-                args = [self.ev(a, env) for a in n.args]
-                return self.call_closure(bound, args, n, env)
+                return self.call_value(bound, args, kw, n, env)
             if bound is None and nm not in _DT_BUILTINS:
                 fi = env.get("__fi__")
                 r = self.pm.resolve(fi.module, nm) if fi else None
@@ -822,7 +849,7 @@ class FlowDT(DT):
                     if isinstance(args[0], (list, tuple)):
                         base.extend(args[0])
                     else:
-                        base.append(args[0])      # the (symbolic) content of one emitter
+                        base.append(SpreadV(args[0].path, args[0].cls, args[0]) if isinstance(args[0], Sym) else args[0])      # the items of a symbolic sequence (content of one emitter)
                 elif m == "insert" and isinstance(args[0], int):
                     base.insert(args[0], args[1])
                 elif m == "copy":
@@ -859,6 +886,23 @@ class FlowDT(DT):
             n2 = ast.Call(func=ast.Attribute(value=_Lit(base), attr=m, ctx=ast.Load()), args=n.args, keywords=n.keywords)
             return super().ev_Call(n2, env)
         return super().ev_Call(n, env)
+
+    @staticmethod
+    def _callable_value(v) -> bool:
+        if isinstance(v, Sym) and not isinstance(v, (CallV, SubV, SliceV, LinV)):
+            return "." in v.path and "(" not in v.path.rsplit(".", 1)[1] and "[" not in v.path.rsplit(".", 1)[1]
+        return isinstance(v, tuple) and bool(v) and v[0] in ("method", "closure", "partial")
+
+    def call_value(self, fv, args, kw, n, env):
+        """call of a callable VALUE: a bound method held in a local / parameter, a method taken from a class, a closure, a partial"""
+        if isinstance(fv, Sym):
+            basep, m = fv.path.rsplit(".", 1)
+            return self.call_method_on(Sym(basep, self.classes.get(basep)), m, args, kw, n, env)
+        if fv[0] == "method":
+            return self.call_named(fv[1], fv[2], None, args, kw, n, env)
+        if fv[0] == "closure":
+            return self.call_closure(fv, args, n, env)
+        return self.call_value(fv[1], list(fv[2]) + list(args), {**fv[3], **kw}, n, env)
 
     def call_method_on(self, base: Sym, m: str, args, kw, n, env):
         if m in self.effect_calls:
@@ -910,6 +954,15 @@ _DT_BUILTINS = {"deepcopy", "copy", "len", "bool", "int", "str", "float", "isins
 # rules
 # ===============================================================================================================
 
+def required_params(fi, drop_self: bool = False) -> list[str]:
+    """positional parameters WITHOUT a default (an opt-in parameter with a default is evaluated with its default: nobody passes it
+    where the rule's summary is read, or the normaliser has already substituted it)"""
+    a = fi.node.args
+    allp = list(a.posonlyargs) + list(a.args)
+    req = [x.arg for x in allp[:len(allp) - len(a.defaults)]]
+    return [x for x in req if not (drop_self and x in ("self", "cls"))]
+
+
 PLACEMENTS = ["first", "last", "all"]
 PLACEMENT_ATOMS = {f"document.rtf_page.{f}": PLACEMENTS for f in ("page_title", "page_footnote", "page_source")}
 
@@ -922,7 +975,7 @@ def predicate_tables(ctx: Ctx, rule: str) -> None:
     pm = ctx.pm
     for short, pname in (("PageRenderer._should_show", "location"), ("PageFeatureProcessor._should_show_element", "element_location")):
         fi = pm.func(short)
-        params = [a.arg for a in fi.node.args.args if a.arg != "self"]
+        params = required_params(fi, drop_self=True)
         if len(params) != 2:
             ctx.gap(rule, f"{short}: the placement predicate no longer takes (placement, page)")
             continue
@@ -1023,7 +1076,7 @@ def render_table(ctx: Ctx) -> dict:
         return memo
     pm = ctx.pm
     fi = pm.func("PageRenderer.render")
-    ps = [a.arg for a in fi.node.args.args]
+    ps = required_params(fi)
     out = {"fi": fi, "rows": [], "error": None}
     ctx.__dict__["_memo"]["render_table"] = out
     if len(ps) != 3:
@@ -1192,7 +1245,7 @@ def figure_path_table(ctx: Ctx) -> dict:
     fi = pm.func("UnifiedRTFEncoder._encode_figure_only")
     out = {"fi": fi, "rows": [], "error": None, "dt": None}
     ctx.__dict__["_memo"]["figure_table"] = out
-    ps = [a.arg for a in fi.node.args.args]
+    ps = required_params(fi)
     if len(ps) != 2:
         out["error"] = "_encode_figure_only no longer takes (self, document)"
         return out
@@ -1320,7 +1373,7 @@ def r06_3(ctx: Ctx) -> None:
     pm = ctx.pm
     for short in STRATEGIES:
         fi = pm.func(short)
-        ps = [a.arg for a in fi.node.args.args]
+        ps = required_params(fi)
         if len(ps) != 2:
             ctx.gap("R06.3", f"{short} no longer takes (self, context)")
             continue
@@ -1464,6 +1517,8 @@ def _geometry(ctx: Ctx, rule: str, fi, s: str, page: str, what: str, bad: dict, 
     toks = _tokens(s)
     words = [w for w, _v in toks]
     opaque = [v for _w, v in toks if v.startswith("‹") and "(…)" in v] + re.findall(r"‹[^‹›]*\(…\)[^‹›]*›", s)
+    # a symbolic piece that is not the numeric argument of a control word is a part of the block that was not evaluated: it may hold any words
+    opaque += [m.group(0) for m in re.finditer(r"(?<![a-zA-Z])‹[^‹›]*›", s) if not re.search(r"\\[a-zA-Z]+$", s[:m.start()])]
     for word, fld in (("\\paperw", "width"), ("\\paperh", "height")):
         vals = [v for w, v in toks if w == word]
         if len(vals) != 1:
@@ -1484,8 +1539,8 @@ def _geometry(ctx: Ctx, rule: str, fi, s: str, page: str, what: str, bad: dict, 
         bad.setdefault("paperw/paperh order", f"{what}: \\paperw must precede \\paperh")
     got = [(w, v) for w, v in toks if w in MARGIN_WORDS]
     if [w for w, _v in got] != MARGIN_WORDS:
-        if opaque and len(got) < 6:
-            return False
+        if (opaque and len(got) < 6) or not got:
+            return False                     # the margin words were not re-identified in the evaluated block: a gap, not a verdict
         bad.setdefault(f"margin words {[w for w, _v in got]}", f"{what}: margins are written as {[w for w, _v in got]}, expected {MARGIN_WORDS} in this order")
     else:
         for i, (w, v) in enumerate(got):
@@ -1524,7 +1579,7 @@ def r06_4(ctx: Ctx) -> None:
     inline = lambda f: f.cls in _GEOM_CLASSES                      # noqa: E731
     # ---- page-break block
     gp = pm.func("RTFDocumentService.generate_page_break")
-    ps = [a.arg for a in gp.node.args.args]
+    ps = required_params(gp)
     bad: dict[str, str] = {}
     if len(ps) != 2:
         ctx.gap("R06.4", "generate_page_break no longer takes (self, document)")
@@ -1581,7 +1636,7 @@ def r06_4(ctx: Ctx) -> None:
                 ctx.gap("R06.4", f"{short} is wrapped by {d}; whether the block still follows the current rtf_page was not decided")
     # ---- document start
     ps_f = pm.func("RTFEncodingService.encode_page_settings")
-    pp = [a.arg for a in ps_f.node.args.args]
+    pp = required_params(ps_f)
     bad = {}
     if len(pp) != 2:
         ctx.gap("R06.4", "encode_page_settings no longer takes (self, page_config)")
